@@ -234,7 +234,7 @@ def _ring_of_cells(cells):
 
 @st.composite
 def abstract_mesh(draw, max_j=3, max_i=4, allow_delete=True, allow_merge=True, jitter=None,
-                  min_faces=1, unit_exps=(3, 3, 4, 10), allow_bowtie=True):
+                  min_faces=1, unit_exps=(3, 3, 4, 10), allow_bowtie=True, allow_overlap=False):
     """Planar subdivision built on a node lattice: quads, triangles, merged (polyomino) faces
     and deleted cells.  Returns {"nodes": [[x, y]...], "faces": [[node...]...]} with shuffled
     node and face numbering, random ring start and winding per face."""
@@ -302,6 +302,20 @@ def abstract_mesh(draw, max_j=3, max_i=4, allow_delete=True, allow_merge=True, j
         if draw(st.booleans()):
             ring = ring[::-1]
         faces.append(ring)
+    overlap = False
+    if allow_overlap and nj * ni >= 2 and draw(st.integers(0, 2)) == 0:
+        # an extra face lying on top of two lattice cells: overlapping polygons, so that ties
+        # between cells exist beyond shared boundaries
+        if ni >= 2:
+            j0, i0 = draw(st.integers(0, nj - 1)), draw(st.integers(0, ni - 2))
+            ring = _ring_of_cells([(j0, i0), (j0, i0 + 1)])
+        else:
+            j0 = draw(st.integers(0, nj - 2))
+            ring = _ring_of_cells([(j0, 0), (j0 + 1, 0)])
+        if all(n in node_no for n in ring):
+            faces.insert(draw(st.integers(0, len(faces))), [node_no[n] for n in ring])
+            quad_flags = [False] * len(faces)
+            overlap = True
     invalid = []
     if allow_bowtie and len(faces) > 1 and draw(st.integers(0, 2)) == 0:
         # self-intersecting faces: swapping two neighbouring corners of a convex quad makes a
@@ -311,7 +325,7 @@ def abstract_mesh(draw, max_j=3, max_i=4, allow_delete=True, allow_merge=True, j
             if f != spare and quad_flags[f] and draw(st.integers(0, 2)) == 0:
                 ring[1], ring[2] = ring[2], ring[1]
                 invalid.append(f)
-    return {"nodes": nodes, "faces": faces, "invalid": invalid}
+    return {"nodes": nodes, "faces": faces, "invalid": invalid, "overlap": overlap}
 
 
 UGRID_NAMESETS = [
@@ -372,6 +386,12 @@ def edge_numbering(draw, faces):
 def ugrid_geom(draw, mesh=None, enc=None, **mesh_kwargs):
     m = draw(abstract_mesh(**mesh_kwargs)) if mesh is None else mesh
     e = draw(ugrid_encoding()) if enc is None else enc
+    if m.get("overlap"):
+        # an edge may then border three faces: the two-column tables cannot describe that
+        e = dict(e, supply=[t for t in e["supply"] if t not in ("edge_face", "face_face")],
+                 transposed=[t for t in e["transposed"] if t not in ("edge_face", "face_face")])
+        if e["edge_dim_attr"] and "edge_node" not in e["supply"]:
+            e["edge_coords"] = True
     return {"nodes": m["nodes"], "faces": m["faces"], "invalid": list(m.get("invalid", [])),
             "edges": draw(edge_numbering(m["faces"])), "enc": e}
 
@@ -449,7 +469,7 @@ def geometry(draw, conv, **kw):
     if conv == "ugrid":
         return draw(ugrid_geom(**{k: v for k, v in kw.items()
                                   if k in ("mesh", "enc", "max_j", "max_i", "allow_delete",
-                                           "allow_merge", "jitter", "min_faces", "allow_bowtie")}))
+                                           "allow_merge", "jitter", "min_faces", "allow_bowtie", "allow_overlap")}))
     raise ValueError(conv)
 
 
